@@ -10,7 +10,7 @@ import warnings
 import numpy as np
 
 from mc import schedules as S
-from mc.util import call, raised
+from mc.util import call, raised, permuted_series
 
 ID = "C12"
 LEVEL = "model_checking"
@@ -55,6 +55,7 @@ def cases(tier, seed):
         for est in EST:
             for cv in ("kfold3", "blockkfold"):
                 yield dict(kind="cvs", ds=ds, est=est, w=True, cv=cv, scoring=0, mode="serial", shape="2dmix")
+                yield dict(kind="cvs", ds=ds, est=est, w=True, cv=cv, scoring=0, mode="serial", shape="series")
     for est in EST:
         for cv in ("kfold3", "blockkfold", "shuffle"):
             for sc in (None, "neg_mean_squared_error"):
@@ -79,7 +80,7 @@ def cases(tier, seed):
     # the same, with the estimator's own numerical code traced as well (fit / predict / jacobian / least_squares of Trend in quick;
     # of the Spline and KNeighbors in thorough): races on module-level scratch state inside a gridder
     # EVERY executed line of EVERY verde source file is a scheduling point ("all"): shared module-level state anywhere in the library
-    deep = [("T1", "kfold2"), ("K2", "kfold2")] + ([("S", "kfold2"), ("V", "kfold2"), ("CH", "kfold2"), ("T1", "kfold3")] if tier == "thorough" else [])
+    deep = [("T1", "kfold2"), ("K2", "kfold2"), ("S", "kfold2")] + ([("V", "kfold2"), ("CH", "kfold2"), ("T1", "kfold3")] if tier == "thorough" else [])
     for est, cv in deep:
         yield dict(kind="cvs", ds=1, est=est, w=True, cv=cv, scoring=0, mode="delayed", bound=1, lines="all")
     if tier == "thorough":
@@ -97,6 +98,8 @@ def cases(tier, seed):
                             yield dict(kind="tts", ds=ds, mode=mode, seed=sd, test_size=ts, vec=vec, w=w)
                             if sd == 0 and w:
                                 yield dict(kind="tts", ds=ds, mode=mode, seed=sd, test_size=ts, vec=vec, w=w, shape="2dmix")
+                            if sd == 1:
+                                yield dict(kind="tts", ds=ds, mode=mode, seed=sd, test_size=ts, vec=vec, w=w, shape="series")
     for perm in itertools.permutations([1e-4, 1e-1, 1e2]):
         for mind in ("default", "two"):
             for cv in ("default", "kfold2", "blockkfold"):
@@ -365,6 +368,11 @@ def run(case, rec):
             vcoords = (C_(e), C_(n))
             vdata = tuple(F_(x) for x in data) if vec else F_(data)
             vwts = None if wts is None else (tuple(T_(x) for x in wts) if vec else T_(wts))
+        if case.get("shape") == "series":
+            # data and weights as columns of a sorted / shuffled table (integer index = a permutation of 0..n-1), coordinates as arrays:
+            # rows are selected by POSITION (seed C12-10)
+            vdata = tuple(permuted_series(x, k) for k, x in enumerate(data)) if vec else permuted_series(data)
+            vwts = None if wts is None else (tuple(permuted_series(x, k + 1) for k, x in enumerate(wts)) if vec else permuted_series(wts, 1))
         if kind == "score":
             est = make_est(key)
             est.fit((e, n), data, wts)
@@ -488,6 +496,9 @@ def run(case, rec):
             T_ = lambda a: np.ascontiguousarray(a.reshape(shp).T).T
             data = tuple(F_(a) for a in data) if case["vec"] else F_(data)
             wts = None if wts is None else (tuple(T_(a) for a in wts) if case["vec"] else T_(wts))
+        if case.get("shape") == "series":
+            data = tuple(permuted_series(a, k) for k, a in enumerate(data)) if case["vec"] else permuted_series(data)
+            wts = None if wts is None else (tuple(permuted_series(a, k + 1) for k, a in enumerate(wts)) if case["vec"] else permuted_series(wts, 1))
         kw = dict(test_size=case["test_size"], random_state=case["seed"])
         if case["mode"] == "spacing":
             kw["spacing"] = 1.0
